@@ -1049,6 +1049,29 @@ class HeteroscedasticConditional(conditional.ConditionalGaussianPDF):
         omega_dagger = jnp.sqrt(p_x.integrate("(Ax+a)'(Bx+b)", A_mat=w, a_vec=b, B_mat=w, b_vec=b))
         return omega_dagger
 
+    @staticmethod
+    def _get_h_and_g_given_h(p_x: pdf.GaussianPDF, g_weights: Float[Array, "Dx"], g_bias: Float[Array, "N"],
+                             w: Float[Array, "Dx"], w0: Float[Array, ""]):
+        """Marginal of h = w'x + w0 and the regression of g = g_weights'x + g_bias on h under p(x).
+
+        Computed from the first two moments directly, so that it stays finite when g is a deterministic
+        function of h (e.g. g_weights = 0 or parallel to w), where the joint Gaussian of (g, h) is singular.
+
+        Returns:
+            p(h), slope, intercept and residual variance of g given h.
+        """
+        mu_g = jnp.einsum("b,ab->a", g_weights, p_x.mu) + g_bias
+        mu_h = jnp.einsum("b,ab->a", w, p_x.mu) + w0
+        Sigma_w = jnp.einsum("abc,c->ab", p_x.Sigma, w)
+        var_h = jnp.einsum("ab,b->a", Sigma_w, w)
+        cov_gh = jnp.einsum("ab,b->a", Sigma_w, g_weights)
+        var_g = jnp.einsum("b,abc,c->a", g_weights, p_x.Sigma, g_weights)
+        slope = cov_gh / var_h
+        intercept = mu_g - slope * mu_h
+        residual_var = jnp.maximum(var_g - slope * cov_gh, 0.)
+        p_h = pdf.GaussianPDF(Sigma=var_h[:, None, None], mu=mu_h[:, None])
+        return p_h, slope, intercept, residual_var
+
     @abstractmethod
     def k_func(self, p_x: pdf.GaussianPDF, W_i:Float[Array, "Dx+1"], omega_dagger: Float[Array, "R"]) -> Float[Array, "R"]:
         pass
@@ -1326,14 +1349,10 @@ class HeteroscedasticHeavisideConditional(HeteroscedasticConditional):
             tp_h = truncated_measure.TruncatedGaussianMeasure(measure=p_h, lower_limit=0., upper_limit=jnp.inf)
             
         else:
-            sum_weights = jnp.tile(jnp.concatenate([-a_projected_M[:,0], w])[None], (a_projected_yb.shape[0],1,1))
-            sum_bias = jnp.hstack([a_projected_yb, jnp.tile(w0[None], (a_projected_yb.shape[0],1))])
-            p_hg = p_x.get_density_of_linear_sum(sum_weights, sum_bias)
-            p_h = p_hg.get_marginal(jnp.array([1]))
+            p_h, factor, constant, residual_var = self._get_h_and_g_given_h(
+                p_x, -a_projected_M[0, 0], a_projected_yb[:, 0], w[0], w0[0]
+            )
             tp_h = truncated_measure.TruncatedGaussianMeasure(measure=p_h, lower_limit=0.)
-            p_g_given_h = p_hg.condition_on_explicit(jnp.array([1]), jnp.array([0]))
-            factor = p_g_given_h.M[:,0,0]
-            constant = p_g_given_h.b[:,0]
             
         Zh = tp_h.integrate()
         Eh = tp_h.integrate("x")[:,0]
@@ -1341,7 +1360,7 @@ class HeteroscedasticHeavisideConditional(HeteroscedasticConditional):
         #heteroscedastic_term_i = Zh * constant**2 + Eh2 * factor**2 + 2 * Eh * factor * constant
         heteroscedastic_term_i = Zh * constant**2 + Eh2 * factor**2 + 2 * Eh * factor * constant
         if self.Dx > 1:
-            heteroscedastic_term_i += Zh * p_g_given_h.Sigma[:,0,0]                  
+            heteroscedastic_term_i += Zh * residual_var
         heteroscedastic_term_i *= 0.5
         return heteroscedastic_term_i[None]
 
@@ -1440,13 +1459,9 @@ class HeteroscedasticReLUConditional(HeteroscedasticConditional):
             c0 = - (a_projected_yb[:,0] +  c1 * w0)
             p_h = p_x.get_density_of_linear_sum(w[None], w0[None])
         else:
-            sum_weights = jnp.tile(jnp.concatenate([-a_projected_M[:,0], w])[None], (a_projected_yb.shape[0],1,1))
-            sum_bias = jnp.hstack([a_projected_yb, jnp.tile(w0[None], (a_projected_yb.shape[0],1))])
-            p_hg = p_x.get_density_of_linear_sum(sum_weights, sum_bias)
-            p_h = p_hg.get_marginal(jnp.array([1]))
-            p_g_given_h = p_hg.condition_on_explicit(jnp.array([1]), jnp.array([0]))
-            c1 = p_g_given_h.M[:,0,0]
-            c0 = p_g_given_h.b[:,0]
+            p_h, c1, c0, residual_var = self._get_h_and_g_given_h(
+                p_x, -a_projected_M[0, 0], a_projected_yb[:, 0], w[0], w0[0]
+            )
             
         phi_h = p_h.hadamard(phi_h_factor, update_full=True)
         tp_h = truncated_measure.TruncatedGaussianMeasure(measure=phi_h, lower_limit=0.) 
@@ -1455,13 +1470,13 @@ class HeteroscedasticReLUConditional(HeteroscedasticConditional):
         Eh3 = tp_h.integrate("x**k", k=3)[:,0]
         cubic_integral = Eh * c0**2 + Eh3 * c1**2 + 2 * Eh2 * c1 * c0
         if self.Dx > 1:
-            cubic_integral += Eh * p_g_given_h.Sigma[:,0,0]                   
+            cubic_integral += Eh * residual_var
         
         if compute_fourth_order:
             Eh4 = tp_h.integrate("x**k", k=4)[:,0]
             quartic_integral = Eh2 * c0**2 + Eh4 * c1**2 + 2 * Eh3 * c1 * c0
             if self.Dx > 1:
-                quartic_integral += Eh2 * p_g_given_h.Sigma[:,0,0]   
+                quartic_integral += Eh2 * residual_var
             return cubic_integral[None], quartic_integral[None]
         else:
             return cubic_integral[None]  
